@@ -322,13 +322,16 @@ Section DECISIONS.
     else scan13 keys s suite_hash ids 0.
 End DECISIONS.
 
-(* sendSessionTicket (TLS <= 1.2): a re-wrapped ticket (resumption) keeps the creation time of the one it
-   replaces, a ticket issued by a full handshake is stamped with the current time.
-   TLS 1.3 sendSessionTickets always stamps the current time. *)
-Definition issue_created12 (resumed : bool) (presented_created : option N) (now : Z) : N :=
-  match resumed, presented_created with
-  | true, Some c => c
-  | _, _ => Z.to_N now
+(* sendSessionTicket (TLS <= 1.2):
+     createdAt := now; if hs.sessionState != nil { createdAt = hs.sessionState.createdAt }
+   hs.sessionState is set as soon as the presented ticket OPENS (before the freshness / version / suite
+   checks), so the new ticket inherits the creation time of any authentic presented ticket, resumed or
+   not; only when no ticket opened is the current time used.  [presented_created] = creation time of the
+   presented ticket if it opened.  TLS 1.3 sendSessionTickets always stamps the current time. *)
+Definition issue_created12 (presented_created : option N) (now : Z) : N :=
+  match presented_created with
+  | Some c => c
+  | None => Z.to_N now
   end.
 
 (* ---------- ticket keys: ticketKeyFromBytes, ticketKeys, SetSessionTicketKeys ---------- *)
@@ -499,7 +502,7 @@ Definition check_case (c : case) : bool :=
                              (check12 hmac_sha256 (ks_lookup ks) keys s ticket cs)) out
   | CIssue tls13 rows =>
       forallb (fun r => let '(resumed, prev, now, got) := r in
-                        N.eqb (if tls13 then Z.to_N now else issue_created12 resumed prev now) got) rows
+                        N.eqb (if tls13 then Z.to_N now else issue_created12 prev now) got) rows
   | CShake s h base cs ks certs key_sets rows =>
       forallb (fun r =>
                  let '(ki, now, m, resumed, suite) := r in
